@@ -90,7 +90,31 @@ def agree_stage(ctx):
             dx = max([abs(a - b_) for a, b_ in zip(xr, xo)] + [Fr(0)])
             if abs(po_r - po_o) > Fr(1, 10 ** 5) * scale or dx > Fr(1, 10 ** 3) * scale:
                 ctx.violation("C10.agree backend=%s %s" % (b, " ".join(c.tags[:4])), "objective differs by %.3g, x by %.3g" % (float(abs(po_r - po_o)), float(dx)), {"case": c.text(), "backend": b})
-    ctx.ob("oracle:backends-agree-double", "oracle", True, "%d class-W problems" % N)
+    # update histories: after every update the back ends must still agree (status and optimum)
+    hs = []
+    for i in range(20 if ctx.quick() else 300):
+        c = SS.gen_history(rng, "ah%d" % i, focus="updates", cp=0, strong=(i % 2 == 0))
+        c.ops = [o for o in c.ops if not o.startswith("CPBITS")]
+        c.settings = [(k, v) for k, v in c.settings if k not in dict(G.FRIENDLY) and k != "max_iter"] + [("max_iter", "100")]
+        if any(t.startswith("F7") for t in c.tags): continue
+        hs.append(c)
+    res2 = D.run_double(ctx, hs, name="c10ah", codes=("C10",))
+    ref2 = res2.get("dense", {})
+    for b, obs in res2.items():
+        if b == "dense": continue
+        for c in hs:
+            for opno, r in ref2.get(c.name, {}).items():
+                o = obs.get(c.name, {}).get(opno)
+                if not o or r.get("op") != "solve": continue
+                if r.get("status") != o.get("status") and "SOLVED" in (r.get("status"), o.get("status")):
+                    ctx.violation("C10.status-after-update backend=%s %s" % (b, " ".join(c.tags[:4])), "solve %d: dense %s, %s %s" % (opno, r.get("status"), b, o.get("status")), {"case": c.text(), "backend": b, "op": opno})
+                elif r.get("status") == "SOLVED":
+                    xr, xo = oracles.pvec(r["x"]), oracles.pvec(o["x"])
+                    scale = 1 + max([abs(v) for v in xr] + [Fr(0)])
+                    dx = max([abs(a - b_) for a, b_ in zip(xr, xo)] + [Fr(0)])
+                    if dx > Fr(1, 10 ** 3) * scale:
+                        ctx.violation("C10.agree-after-update backend=%s %s" % (b, " ".join(c.tags[:4])), "solve %d: x differs by %.3g" % (opno, float(dx)), {"case": c.text(), "backend": b, "op": opno})
+    ctx.ob("oracle:backends-agree-double", "oracle", True, "%d class-W problems, %d update histories" % (N, len(hs)))
 
 def stage(ctx):
     storage_stage(ctx); agree_stage(ctx)
